@@ -837,10 +837,21 @@ func report(t vcore.Failer, c Case, v *vcore.Violation) {
 func TestC10(t *testing.T) {
 	files, explicit := vcore.ReplayFiles()
 	for _, f := range files {
-		var c Case
-		if err := vcore.LoadReplayCase(f, &c); err != nil {
+		var w struct {
+			Case
+			Flood string `json:"flood"`
+			Inner *FCase `json:"case"`
+		}
+		if err := vcore.LoadReplayCase(f, &w); err != nil {
 			t.Fatalf("replay %s: %v", f, err)
 		}
+		if w.Flood != "" && w.Inner != nil {
+			vcore.E.Eval()
+			vcore.E.Class("replayed")
+			vcore.Report(t, runFlood(*w.Inner), map[string]any{"flood": w.Flood, "case": w.Inner})
+			continue
+		}
+		c := w.Case
 		v, s := run(c)
 		account(c, s)
 		vcore.E.Class("replayed")
@@ -849,6 +860,7 @@ func TestC10(t *testing.T) {
 	if explicit {
 		return
 	}
+	floodPart(t)
 	vcore.Check(t, vcore.N(600, 7500), func(rt *rapid.T) {
 		c := gen(rt)
 		v, s := run(c)
